@@ -12,7 +12,8 @@ RULE = ("SMB1/SMB2 Negotiate and Session-Setup requests inside a NetBIOS session
         "bit, dialect lists of 1..12 entries with permutations, duplicates and unknown dialects, security blobs of 1..512 bytes, "
         "over UDP and validated TCP flows (one segment); every response is decoded by independent NBSS/SMB1/SMB2 codecs (NBSS "
         "length, reply flag, command and ids echoed, WordCount/ByteCount, DialectIndex < offered, DialectRevision offered, "
-        "security buffer offset+length == end of message). Negative: reply flag set, every other command value 0..255 (SMB1) "
+        "security buffer offset+length == end of message); SMB1 lists with repeated dialects must select the same dialect (by name) as "
+        "without the repetitions. Negative: reply flag set, every other command value 0..255 (SMB1) "
         "and sampled 16-bit commands (SMB2), SMB2 negotiate without any supported dialect, and proper prefixes, must stay "
         "unanswered. Non-trivial = every judged case; distinct = distinct (kind, ids class, dialect list / blob length, transport).")
 ASSUME = ["session-setup requests carry a non-empty security blob (extended security)",
@@ -54,6 +55,25 @@ def shard(ctx, budget_s):
                     observed=(a.rep or b"").hex()[:300], expected="matching response")
             if ctx.shard == 0 and len(ctx.samples) < 3:
                 ctx.sample({"kind": req["kind"], "request": req["payload"].hex()[:200]})
+        # ---- SMB1: offering a dialect twice adds no option - the dialect selected (by name) must not change
+        for _ in range(6):
+            base = [rng.choice(smb.SMB1_DIALECTS) for _x in range(rng.randrange(1, 6))]
+            dup = list(base)
+            for _x in range(rng.randrange(1, 4)):
+                dup.insert(rng.randrange(1, len(dup) + 1), rng.choice(dup))
+            names = []
+            for dl in (base, dup):
+                m = smb.nbss(smb.smb1_header(0x72, mid=rng.getrandbits(16)) + smb.smb1_negotiate_body(dl))
+                a = lab.ask(m, "tcp")
+                idx = None
+                if a.rep is not None and len(a.rep) >= 4 + 32 + 3 and a.rep[4:8] == b"\xffSMB" and a.rep[36] == 17:
+                    idx = struct.unpack("<H", a.rep[37:39])[0]
+                names.append(dl[idx] if idx is not None and idx < len(dl) else None)
+            ctx.stats["smb1_duplicate_pairs"] += 1
+            ctx.nontrivial("dup", repr(base), repr(dup))
+            if names[0] != names[1]:
+                ctx.violation("smb1_selection_changed_by_duplicates", "offering %r selects %r, offering the same dialects with repetitions %r selects %r" % (
+                    base, names[0], dup, names[1]), observed=repr(names[1]), expected=repr(names[0]))
         # ---- negatives
         ids = smb.rnd_ids(rng)
         neg1 = smb.smb1_negotiate_body([b"NT LM 0.12", b"SMB 2.002"])
